@@ -12,10 +12,13 @@ package mapping_test
 
 import (
 	"fmt"
+	"net/http"
+	"net/http/httptest"
 	"reflect"
 	"strings"
 	"testing"
 
+	"github.com/gotid/god/api/httpx"
 	"github.com/gotid/god/lib/conf"
 	"github.com/gotid/god/lib/logx"
 	"github.com/gotid/god/lib/mapping"
@@ -107,8 +110,79 @@ func c05Run(ep string, d *c05JV, target any) c05Outcome {
 	return c05Call(func() error { return mapping.UnmarshalJsonBytes([]byte(d.JSON()), target) })
 }
 
+// ---- cross-call history -------------------------------------------------
+// The result of a call depends on nothing but its own inputs, so earlier calls
+// through other entry points must not matter. c05Preamble is a fixed history run
+// before every judged call (so that a replay file reproduces on its own even when
+// a defect poisons process-wide state for good); c05WarmUp runs the generated
+// warm-up calls of the case. Outcomes of these calls are not judged (panics are).
+
+type c05PreConf struct {
+	UserName string `json:"user_name"`
+	Age      int    `json:"Age,optional"`
+}
+
+func c05Preamble() (panicked any) {
+	out := c05Call(func() error {
+		var a, b, c, d c05PreConf
+		_ = conf.LoadFromJsonBytes([]byte(`{"userName":"a","age":1}`), &a)
+		_ = conf.LoadFromYamlBytes([]byte("User_Name: b\n"), &b)
+		_ = mapping.UnmarshalKey(map[string]any{"x": 1}, &struct {
+			X int `key:"x"`
+		}{})
+		_ = mapping.UnmarshalYamlBytes([]byte("user_name: c\nAge: 2\n"), &c)
+		r := httptest.NewRequest(http.MethodPost, "/p?q=1", strings.NewReader(`{"user_name":"d","Age":3}`))
+		r.Header.Set("Content-Type", "application/json")
+		_ = httpx.Parse(r, &d)
+		return nil
+	})
+	return out.Panic
+}
+
+func c05WarmUp(ws []c05Warm) (panicked any) {
+	for i := range ws {
+		w := &ws[i]
+		wc := c05Case{S: w.S, D: w.D}
+		t, ok := c05Target(&wc)
+		if !ok || w.D.T != "obj" {
+			continue
+		}
+		var out c05Outcome
+		switch w.EP {
+		case "confjson":
+			out = c05Call(func() error { return conf.LoadFromJsonBytes([]byte(w.D.JSON()), t.Interface()) })
+		case "confyaml":
+			out = c05Call(func() error { return conf.LoadFromYamlBytes([]byte(w.D.YAML(1)), t.Interface()) })
+		case "key":
+			out = c05Run("key", &w.D, t.Interface())
+		case "yaml":
+			out = c05Call(func() error { return mapping.UnmarshalYamlBytes([]byte(w.D.YAML(0)), t.Interface()) })
+		default:
+			out = c05Run("", &w.D, t.Interface())
+		}
+		if out.Panic != nil {
+			return out.Panic
+		}
+	}
+	return nil
+}
+
+// c05History runs preamble and warm-ups; a non-empty string is a P0 failure.
+func c05History(ws []c05Warm) string {
+	if p := c05Preamble(); p != nil {
+		return fmt.Sprintf("P0 a call of the fixed preamble panicked: %v", p)
+	}
+	if p := c05WarmUp(ws); p != nil {
+		return fmt.Sprintf("P0 a warm-up call panicked: %v", p)
+	}
+	return ""
+}
+
 func c05InterpJSON(c c05Case) (v kit.Verdict) {
 	defer c05EnvCleanup()
+	if msg := c05History(c.W); msg != "" {
+		return kit.Verdict{Fail: msg, Classes: []string{"history-panic"}}
+	}
 	target, ok := c05Target(&c)
 	if !ok || c.D.T != "obj" {
 		return kit.Verdict{Excluded: true, Classes: []string{"unbuildable-shape"}}
@@ -121,6 +195,9 @@ func c05InterpJSON(c c05Case) (v kit.Verdict) {
 	}
 	o.walkStruct(c.S, &c.D, res, "")
 	o.class("ep:" + c.EP)
+	for i := range c.W {
+		o.class("warmup:" + c.W[i].EP)
+	}
 	v.Fail, v.Known = c05Judge(o, out, "Unmarshal("+c.EP+")", func() string { return c05Describe(&c) })
 	if v.Fail == "" && res.IsValid() {
 		v.Fail = c05Repeat(o, &c, res, "Unmarshal("+c.EP+")", func(t any) c05Outcome { return c05Run(c.EP, &c.D, t) })
@@ -255,6 +332,9 @@ func TestVerif_C05_json(t *testing.T) {
 
 func c05InterpYAML(c c05Case) (v kit.Verdict) {
 	defer c05EnvCleanup()
+	if msg := c05History(c.W); msg != "" {
+		return kit.Verdict{Fail: msg, Classes: []string{"history-panic"}}
+	}
 	tj, ok := c05Target(&c)
 	if !ok || c.D.T != "obj" {
 		return kit.Verdict{Excluded: true, Classes: []string{"unbuildable-shape"}}
@@ -323,6 +403,7 @@ func c05GenYAMLCase(rt *rapid.T) c05Case {
 	}
 	c.D = g.object(c.S, 1)
 	c.Y = rapid.IntRange(0, 1).Draw(rt, "yamlstyle")
+	c.W = c05GenWarmups(rt)
 	return c
 }
 
